@@ -64,6 +64,10 @@ L:
 		}
 	}
 
+	if tx == nil && err == nil {
+		// every endpoint context was already cancelled: nothing was sent
+		err = errors.New("no live endpoint to send the request to")
+	}
 	resp := &response{idx, tx, err}
 	go func() {
 		defer close(req.reply)
